@@ -57,6 +57,9 @@ claim("C03",
       "over the rewriter loop of the driver model for any finder. C03_canonical_files: the same from the file's TEXT "
       "alone for every file of the canonical file language (composition with the parser specification theorem "
       "find_canonical of Proofs/FileSpec.v): the tokens stand at the offsets `expected` computes from the text. "
+      "C03_canonical_rewritten: in message style the bytes written ARE the UTF-8 encoding of the canonical file with the "
+      "same layout, names, arguments and other items whose statements without a reference now begin their message "
+      "with `[ref: N] ` (an equation between texts, via decode_is_encode and weave_items). "
       "Tie: real binary vs extracted model on the "
       "repository's Rust corpus, generated statements and a malformed/mutated stream; the predicate (token deletion "
       "restores the original; tokens only at statements lacking a reference) is evaluated directly on the bytes.",
